@@ -475,3 +475,40 @@ func ComposeMsg(text, code, dtype string, params map[string]any, path *string) s
 	}
 	return sb.String()
 }
+
+// AltGoType is a second, equally valid destination type for the schema: the same fields (names, types, tags) declared
+// in reverse order at every struct level.
+func (n *Node) AltGoType() reflect.Type {
+	switch n.Kind {
+	case Slice:
+		return reflect.SliceOf(n.Elem.AltGoType())
+	case Ptr:
+		return reflect.PointerTo(n.Elem.AltGoType())
+	case Pre:
+		return n.Elem.AltGoType()
+	case Struct:
+		var fs []reflect.StructField
+		for _, f := range n.Fields {
+			fs = append(fs, reflect.StructField{Name: f.GoName, Type: f.Node.AltGoType(), Tag: reflect.StructTag(TagString(f.Tags))})
+		}
+		for _, x := range n.ExtraFields {
+			fs = append(fs, reflect.StructField{Name: x.GoName, Type: x.Type})
+		}
+		for i, j := 0, len(fs)-1; i < j; i, j = i+1, j-1 {
+			fs[i], fs[j] = fs[j], fs[i]
+		}
+		return reflect.StructOf(fs)
+	}
+	return n.GoType()
+}
+
+// HasStruct reports whether the tree contains a struct node with at least two fields.
+func (n *Node) HasStruct() bool {
+	found := false
+	n.Walk(func(x *Node) {
+		if x.Kind == Struct && len(x.Fields)+len(x.ExtraFields) >= 2 {
+			found = true
+		}
+	})
+	return found
+}
